@@ -577,6 +577,10 @@ for _patch, _props in (('refactors/R3/patch.diff', ('C04', 'C05', 'C06', 'C07', 
                        ('refactors/R21/patch.diff', ('C12', 'C13', 'C14')),
                        ('refactors/R22/patch.diff', ('C15', 'C16', 'C18')),
                        ('refactors/R23/patch.diff', ('C03', 'C05', 'C06', 'C08', 'C10', 'C17', 'C20')),
+                       ('refactors/R25/patch.diff', ('C02', 'C03', 'C08', 'C09', 'C12', 'C13', 'C14')),
+                       ('refactors/R26/patch.diff', ('C15', 'C16')),
+                       ('refactors/R27/patch.diff', ('C09', 'C17', 'C19')),
+                       ('refactors/R28/patch.diff', ('C01', 'C02', 'C06', 'C07', 'C09', 'C10', 'C11', 'C20')),
                        ('refactors/R24/patch.diff', ('C01', 'C04', 'C05', 'C06', 'C07', 'C08', 'C09', 'C11', 'C19')),
                        ('refactors/R20/patch.diff', ('C12', 'C13'))):       # harmless twin of seed C12f (delay parameters read by a helper)   # harmless twin of seed C08e (memo with a complete key)    # harmless twin of seed C16c (prior spec looked up once per parameter)     # harmless twin of seed C15b (columns by list indexing, not by mask)
     for _p in _props:
